@@ -306,6 +306,7 @@ class TrajectoryCalc:
 
         iterations_count = 0
         zero_finding_error = _cZeroFindingAccuracy * 2
+        previous = None  # (elevation, height) of the previous trial, for the measured (secant) sensitivity
         # x = horizontal distance down range, y = drop, z = windage
         while zero_finding_error > _cZeroFindingAccuracy and iterations_count < _cMaxIterations:
             # Check height of trajectory at the zero distance (using current self.barrel_elevation)
@@ -318,7 +319,16 @@ class TrajectoryCalc:
             if zero_finding_error > _cZeroFindingAccuracy:
                 # Adjust barrel elevation to close height at zero distance.  d(height)/d(elevation) grows with 1/cos^2 of
                 # the sight line's inclination; without that factor the iteration diverges for look angles beyond 45 degrees
-                self.barrel_elevation -= (height - height_at_zero) / zero_distance * math.cos(self.look_angle) ** 2
+                sensitivity = zero_distance / math.cos(self.look_angle) ** 2
+                # For strongly curved trajectories (slow, high-drag projectiles, long ranges) the true sensitivity is a
+                # good deal smaller than this straight-line estimate and the iteration contracted too slowly to finish
+                # within cMaxIterations: use the sensitivity measured between the last two trials when it is plausible
+                if previous is not None and self.barrel_elevation != previous[0]:
+                    measured = (height - previous[1]) / (self.barrel_elevation - previous[0])
+                    if 0.2 * sensitivity < measured < 5.0 * sensitivity:
+                        sensitivity = measured
+                previous = (self.barrel_elevation, height)
+                self.barrel_elevation -= (height - height_at_zero) / sensitivity
             else:  # last barrel_elevation hit zero!
                 break
             iterations_count += 1
